@@ -261,12 +261,19 @@ def behaviours_from_dump(path, maxops, limit, rng):
     return [c for p in parts for c in p], total
 
 
+def _safe_replay(beh, workdir, seed):
+    try:
+        return common.guarded(replay, 120, beh, workdir, seed)
+    except common.CaseTimeout as exc:
+        return ({'check': 'calls:exception:CaseTimeout'}, {'text': str(exc)})
+
+
 def _work(args):
     behs, workdir, seed = args
     common.import_repo()
     out = []
     for i, beh in enumerate(behs):
-        out.append(replay(beh, os.path.join(workdir, 'p%d' % os.getpid(), 'b%d' % (i % 50)), seed + i))
+        out.append(_safe_replay(beh, os.path.join(workdir, 'p%d' % os.getpid(), 'b%d' % (i % 50)), seed + i))
     return out
 
 
